@@ -221,7 +221,7 @@ def _call_iso_finder(inp):
 @S.item("iso_finder.isomorphs", site=f"{_RM}:iso_finder",
         bound="seeded selection (graphs on >= 2 vertices: cannot meet KF-C16-1; input-first is not judged here: cannot meet KF-C16-2); "
               "graphs: ALL n<=4 + (quick 60 seeded / thorough ALL 1024) n=5 + 12 graphs on 8 vertices (K8, empty, star, path, cycle, 7 seeded); "
-              "n_iso in {1,2,5,24,200}; rel_inc_thresh {0.2,0,1}; allow_exhaustive; sort_emit; label_map; thresh {None,1,50}; seeds {0,1,2,None}: "
+              "n_iso in {1,2,5,24,200} ({1,3,10,40} on 8 vertices); rel_inc_thresh {0.2,0,1}; allow_exhaustive; sort_emit; label_map; thresh {None,1,50}; seeds {0,1,2,None}: "
               "full product (thorough; on 5 vertices only rel_inc_thresh {0.2,0}, thresh None, seed 0) / 5700 seeded combinations (quick)",
         clause=CL_ISO + "; " + CL_MAP + " (label_map=True)")
 def c_iso_finder(inp):
